@@ -262,6 +262,11 @@ class GaussianMerge(Compiler):
                 if not displacement_mapping:
                     # Add edge from gaussian transform to successor operation
                     self.new_DAG.add_edge(gaussian_transform[0], successor_op)
+                else:
+                    # The successor has to stay behind the transform and the displacement gates
+                    self.new_DAG.add_edges_from(
+                        [(new_op, successor_op) for new_op in gaussian_transform]
+                    )
 
     def add_gaussian_pre_and_succ_gates(
         self, gaussian_transform, merged_gaussian_ops, displacement_mapping
